@@ -12,6 +12,8 @@ R-C02-6  every proof point is decoded before use: decompress() results are conve
 R-C02-7  constants of the range polynomial: radix 2 in `d`, `2^bits - 1`, `y - 1` denominators (conditional idiom rules)
 R-C02-8  batch weighting (= R-C08-1..3): each proof's equation enters the gate under its own fresh non-zero weight, so that defects in
          different proofs of a batch cannot cancel
+R-C02-9  generator independence (= R-C11-1, R-C11-4): the G and H chains of every party carry their own labels (tag byte, party index), the
+         blinding generators are hashed from their own labels: no two positions of the relation hold the same point
 """
 from bpsa.facts import callee_decl, callee_name
 from bpsa.normal import canon
@@ -247,3 +249,11 @@ def run(ctx):
     from . import C08
     from .common import shared
     shared(ctx, C08.run, 'R-C08', 'R-C02-8')
+    # R-C02-9 (= R-C11-1, R-C11-4): the relation is sound only over generators none of which is a known combination of the others: the
+    # G and H chains of every party carry different labels and the blinding generators are derived from their own labels (two
+    # positions that hold the same point let a prover trade a_L against a_R after the challenges are known)
+    from . import C11
+    new = ctx.fn('BulletproofGens::<P>::new', 'R-C02-9')
+    if new is not None:
+        shared(ctx, lambda c: C11.r1(c, new), 'R-C11-1', 'R-C02-9')
+    shared(ctx, C11.r4, 'R-C11-4', 'R-C02-9')
